@@ -191,6 +191,18 @@ def run(tier, seed, replay=None):
         for sc, r in zip(uni, results):
             if r["doc"] is None:
                 rejected += 1        # an invalid combination (e.g. conflicting CLI flags)
+                if "Could not output config" in (r["raw"] or ""):
+                    # accepted, resolved -- and then not printable: `the text printed by
+                    # --print-config .. re-parses to the same effective configuration'
+                    why = (r["raw"] or "").strip().split("\n")[-1][:120]
+                    off = any(kv == ["use_small_heuristics", "Off"]
+                              for src in ([sc["cli"]["pairs"], sc["cpath"], sc["home"], sc["confdir"]]
+                                          + [c[k] for c in sc["chain"] for k in ("dotted", "plain")])
+                              for kv in src["strs"])
+                    v.violation(f"print:CannotPrint:heuristics_off={off}:{why}",
+                                f"rustfmt {' '.join(r['args'])} --print-config current accepts the "
+                                f"configuration but cannot print it: {why}",
+                                {"scenario": sc, "stderr": r["raw"][-600:]})
                 continue
             rec = dict(sc)
             rec["obs"] = split_obs(r["doc"])
